@@ -107,6 +107,10 @@ pub fn with_poison(ops: Vec<Op>) -> Vec<Op> {
                 for p in crate::props3::poison_sequences().iter().take(5) {
                     out.push(Op::Feed(vec![format!("{}{}", p, chunks[0])], *utf8));
                 }
+                // the same sequence with every number zero-padded to 8 digits
+                if let Some(padded) = zero_pad(&chunks[0]) {
+                    out.push(Op::Feed(vec![padded], *utf8));
+                }
             }
         }
         out.push(op);
@@ -136,6 +140,59 @@ pub fn large_bases(c: &Collector, fills: Vec<Fill>) -> Vec<Base> {
     }
     c.count("large_geometry_bases", b.len() as u64);
     b
+}
+
+/// `ESC [ 5 ; 12 H` -> `ESC [ 00000005 ; 00000012 H` (None if the string has no number)
+pub fn zero_pad(s: &str) -> Option<String> {
+    if !s.starts_with("\x1b[") {
+        return None;
+    }
+    let mut out = String::new();
+    let mut run = String::new();
+    let mut any = false;
+    for ch in s.chars() {
+        if ch.is_ascii_digit() {
+            run.push(ch);
+        } else {
+            if !run.is_empty() {
+                out.push_str(&format!("{:0>8}", run));
+                run.clear();
+                any = true;
+            }
+            out.push(ch);
+        }
+    }
+    if !run.is_empty() {
+        out.push_str(&format!("{:0>8}", run));
+        any = true;
+    }
+    if any {
+        Some(out)
+    } else {
+        None
+    }
+}
+
+/// Long histories of ONE operation: apply `op` `n` times from `base`, refining every step
+/// against the model (counters that wrap, caps, "every Nth time" maintenance).
+pub fn repeat_op(c: &Collector, prop: &str, engine: &str, base: &Base, op: &Op, n: usize) {
+    let mut s = base.screen.clone();
+    let mut script = base.script.clone();
+    let mut local = Local::default();
+    for _ in 0..n {
+        let pre = crate::snapshot::snap(&s);
+        let outcome = crate::explore::run_op(&s, op);
+        local.transitions += 1;
+        local.count("repeated_steps");
+        let t = Trans { columns: base.columns, lines: base.lines, script: &script, pre: &pre, pre_screen: &s, op, outcome: &outcome };
+        let ok = refine_all(c, prop, engine, &t, &mut local);
+        match outcome {
+            Ok((s2, _, _)) if ok => s = s2,
+            _ => break,
+        }
+        script.push(op.clone());
+    }
+    local.flush(c);
 }
 
 // =====================================================================  C05
@@ -435,11 +492,58 @@ pub fn c13(c: &Collector, g: &mut Guard) {
     sweep(c, &bases, c13_ops, |c, t, local| {
         refine_all(c, "C13", "E2.depth1", t, local);
     });
-    let lb = large_bases(c, vec![Fill::F0, Fill::F1]);
+    let lb = large_bases(c, vec![Fill::F0, Fill::F1, Fill::F2, Fill::F8]);
     sweep(c, &lb, c13_ops, |c, t, local| {
         local.count("large_geometry_transitions");
         refine_all(c, "C13", "E2.depth1.large", t, local);
     });
+    // edit on a wide row, then widen the screen: what crossed the edge must not come back
+    let mut eb: Vec<Base> = Vec::new();
+    for b in lb.iter().step_by(4) {
+        for e in [Op::Ich(Some(2)), Op::Ich(Some(200)), Op::Dch(Some(1)), Op::Sm(vec![4], false)] {
+            let mut s2 = b.screen.clone();
+            let mut tail = vec![e.clone()];
+            if matches!(e, Op::Sm(..)) {
+                tail.push(Op::Draw("IJ".into()));
+            }
+            let mut ok = true;
+            for op in &tail {
+                ok &= crate::ops::apply(&mut s2, op).is_ok();
+            }
+            if ok {
+                let mut script = b.script.clone();
+                script.extend(tail);
+                eb.push(Base { columns: b.columns, lines: b.lines, script, screen: s2 });
+            }
+        }
+    }
+    sweep(c, &eb, |b| vec![Op::Resize(None, Some(b.screen.columns + 5)), Op::Resize(Some(b.screen.lines + 1), Some(b.screen.columns + 1))], |c, t, local| {
+        local.count("large_edit_then_grow");
+        refine(c, "C13", "E2.large.resurface", t, &[crate::refscreen::Comp::Grid], local);
+    });
+    // long histories of one edit (every-Nth-time maintenance, counters): 300 repetitions
+    let rspec = Spec {
+        geoms: vec![(6, 2)],
+        fills: vec![Fill::F1, Fill::F5],
+        cursors: CursorSel::Home,
+        regions: RegionSel::NoRegion,
+        modesets: vec![0, M_DECSCNM, M_DECSCNM | M_IRM],
+        renditions: default_renditions(),
+        stacks: vec![0],
+        charsets: default_charsets(),
+        hidden_cursor: false,
+    };
+    for b in gen_bases(c, &rspec) {
+        // blanks stored with the current rendition on the second row
+        let mut b2 = b.clone();
+        for op in [Op::Cup(Some(2), Some(1)), Op::El(Some(2)), Op::Cup(Some(1), Some(2))] {
+            let _ = crate::ops::apply(&mut b2.screen, &op);
+            b2.script.push(op);
+        }
+        for op in [Op::Ich(Some(1)), Op::Dch(Some(1)), Op::Draw("k".into())] {
+            repeat_op(c, "C13", "E2.repeat", &b2, &op, 300);
+        }
+    }
     // depth-k BFS: all ICH/DCH/IRM-draw/EL/resize interleavings on the same row
     let depth = if c.thorough() { 5 } else { 4 };
     for (gc, gl) in [(5u32, 1u32), (3, 2)] {
@@ -506,6 +610,8 @@ pub fn c13(c: &Collector, g: &mut Guard) {
     g.need(c, "pre_pending_wrap");
     g.need(c, "model_changed_state");
     g.need(c, "bfs_judged");
+    g.need(c, "repeated_steps");
+    g.need(c, "large_edit_then_grow");
 }
 
 // =====================================================================  C06
@@ -674,6 +780,9 @@ pub fn c04_texts(c: u32) -> Vec<String> {
         "\u{2060}\u{feff}".into(),
         "\u{1f600}\u{e0100}".into(),
     ];
+    // many marks on one cell (cell-size caps, per-cell counters)
+    v.push(format!("x{}", "\u{308}".repeat(40)));
+    v.push(format!("\u{30a2}{}", "\u{fe0f}".repeat(30)));
     if c >= 24 {
         // long runs of plain text in ONE call (bulk paths)
         v.push("0123456789ABCDEFGHIJ".into());
@@ -708,7 +817,7 @@ pub fn c04(c: &Collector, g: &mut Guard) {
     sweep(c, &bases, c04_ops, |c, t, local| {
         refine_all(c, "C04", "E2.depth1", t, local);
     });
-    let lb = large_bases(c, vec![Fill::F0, Fill::F1]);
+    let lb = large_bases(c, vec![Fill::F0, Fill::F1, Fill::F8]);
     sweep(c, &lb, c04_ops, |c, t, local| {
         local.count("large_geometry_transitions");
         refine_all(c, "C04", "E2.depth1.large", t, local);
